@@ -85,9 +85,18 @@ fn agg_list(r: &mut Rng, cols: &[(&str, bool)], feats: &mut Vec<&'static str>, a
 /// A query the DP compiler is expected to accept (most of the time)
 pub fn gen_dp_query(r: &mut Rng, w: &DpWorld) -> DpQuery {
     let mut feats: Vec<&'static str> = vec![];
+    if r.chance(1, 20) {
+        // two DP sub-queries of the same shape joined: each level and each side has its own mechanisms
+        let (x, y) = *r.pick(&[("amount", "qty"), ("qty", "adj"), ("amount", "amount")]);
+        let sql = format!(
+            "WITH a AS (SELECT 2 * SUM({}) AS sx FROM orders), b AS (SELECT 2 * SUM({}) AS sy FROM orders) SELECT * FROM a CROSS JOIN b",
+            x, y
+        );
+        return DpQuery { sql, features: vec!["join_of_dp_subqueries"], public_keys_only: false, keys: vec![], aggs: vec![], from_where: String::new(), group_exprs: vec![] };
+    }
     let users = w.cat.table("users").unwrap();
     let city_public = users.cols[users.col("city").unwrap()].finite_values();
-    let shape = r.below(22);
+    let shape = r.below(24);
     let (from, num_cols, keys): (String, Vec<(&str, bool)>, Vec<(&str, bool)>) = match shape {
         0 | 1 | 2 => (
             "orders".into(),
@@ -203,6 +212,24 @@ pub fn gen_dp_query(r: &mut Rng, w: &DpWorld) -> DpQuery {
                 vec![("o.status", true), ("u.tier", true)],
             )
         }
+        22 => {
+            // an aggregation over a sub-aggregation with its own groups (several units per group)
+            feats.push("nested_aggregation");
+            (
+                "(SELECT status AS st, qty AS q, AVG(amount) AS m, COUNT(*) AS n FROM orders GROUP BY status, qty) AS sub".into(),
+                vec![("m", true), ("n", false)],
+                vec![("st", true)],
+            )
+        }
+        23 => {
+            // UNION ALL of two protected tables whose columns have different declared ranges
+            feats.push("union_all_two_tables");
+            (
+                "(SELECT amount AS v, qty AS q FROM orders UNION ALL SELECT x AS v, uid AS q FROM visits) AS sub".into(),
+                vec![("v", true), ("q", false)],
+                vec![],
+            )
+        }
         10 => {
             feats.push("derived");
             (
@@ -265,6 +292,11 @@ pub fn gen_dp_query(r: &mut Rng, w: &DpWorld) -> DpQuery {
         // a DP sub-query joined or post-processed (event composition)
         feats.push("nested_dp");
         sql = format!("WITH dpq AS ({}) SELECT * FROM dpq", sql);
+        if r.chance(1, 2) {
+            // several plain projection layers above the aggregation
+            feats.push("deep_projection");
+            sql = format!("SELECT * FROM (SELECT * FROM (SELECT * FROM ({}) AS l1) AS l2) AS l3", sql);
+        }
     }
     DpQuery { sql, features: feats, public_keys_only, keys: keys_alias, aggs: aggs_meta, from_where, group_exprs }
 }
